@@ -152,7 +152,7 @@ func v1Check(c *Ctx, kind, tok string, rp c19Replay, wantDump string) (accepted 
 }
 
 func runC19(c *Ctx) {
-	c.Res.Rule = "version-1 claims of all seven kinds from the reflective generator (every field set or not, int64 edges, special strings) x every signer role the v1 library permits: v1 Encode -> own decoder: all fields preserved (reflective compare modulo nil/empty); every token also through the Lean model of v1 Encode and Decode; single-character substitutions / insertions / deletions in payload and signature (sampled in quick, exhaustive positions on a pool in thorough): refused or identical content; alterations that leave the base64url alphabet (padding, +, /, line breaks, blanks in every segment); forged wrong-role issuers (correctly signed); v2-header tokens. non-trivial = distinct tokens."
+	c.Res.Rule = "version-1 claims of all seven kinds from the reflective generator (every field set or not, int64 edges, special strings) x every signer role the v1 library permits: v1 Encode -> own decoder: all fields preserved (reflective compare modulo nil/empty); every token also through the Lean model of v1 Encode and Decode; single-character substitutions / insertions / deletions in payload and signature (sampled in quick, exhaustive positions on a pool in thorough): refused or identical content; alterations that leave the base64url alphabet (padding, +, /, line breaks, blanks in every segment); forged wrong-role issuers (correctly signed; also naming themselves as subject); v2-header tokens. non-trivial = distinct tokens."
 	type vt struct{ kind, tok, dump string }
 	var pool []vt
 	n := c.N(400, 40000)
@@ -270,12 +270,24 @@ func runC19(c *Ctx) {
 		pb, _ := b64.DecodeString(segs[1])
 		for _, role := range []byte{'O', 'A', 'U', 'N', 'C'} {
 			kp := kpN(role, 7)
-			payload := setJSONPath(string(pb), func(m map[string]interface{}) { m["iss"] = pubOf(kp) })
-			for _, hdr := range []string{hdrV1, hdrV2, `{"typ":"JWT","alg":"ED25519"}`, `{"typ":"jwt","alg":"ed25519-nkey"}`, `{"typ":"jwt","alg":"none"}`} {
-				for _, lay := range []string{"v1", "v2"} {
-					t := forge(hdr, payload, kp, lay)
-					v1Check(c, p.kind, t, c19Replay{p.kind, t, p.tok, "forged-" + string(role) + "-" + lay}, "")
-					c.Count("forged")
+			for _, self := range []bool{false, true} {
+				// self = true: the forged issuer also names itself as subject (a key minting its own claim)
+				payload := setJSONPath(string(pb), func(m map[string]interface{}) {
+					m["iss"] = pubOf(kp)
+					if self {
+						m["sub"] = pubOf(kp)
+					}
+				})
+				how := "forged-"
+				if self {
+					how = "forged-selfsigned-"
+				}
+				for _, hdr := range []string{hdrV1, hdrV2, `{"typ":"JWT","alg":"ED25519"}`, `{"typ":"jwt","alg":"ed25519-nkey"}`, `{"typ":"jwt","alg":"none"}`} {
+					for _, lay := range []string{"v1", "v2"} {
+						t := forge(hdr, payload, kp, lay)
+						v1Check(c, p.kind, t, c19Replay{p.kind, t, p.tok, how + string(role) + "-" + lay}, "")
+						c.Count("forged")
+					}
 				}
 			}
 		}
